@@ -109,6 +109,13 @@ pub fn check_text(ctx: &mut Ctx, t: &str) -> Result<(), Violation> {
         }
         Ok(Err(_)) => {}
     }
+    // the deprecated second entry point must agree with from_str
+    #[allow(deprecated)]
+    match (guarded(|| Square::from_string(t.to_string())), guarded(|| Square::from_str(t).ok())) {
+        (Err(p), _) => ctx.fail("square:panic", format!("Square::from_string({:?}) panicked: {}", t, p), case())?,
+        (Ok(a), Ok(b)) if a != b => ctx.fail("square:from_string-differs", format!("Square::from_string({:?}) = {:?} but Square::from_str gives {:?}", t, a.map(|s| s.to_string()), b.map(|s| s.to_string())), case())?,
+        _ => {}
+    }
     if let Err(p) = guarded(|| File::from_str(t).is_ok()) {
         ctx.fail("file:panic", format!("File::from_str({:?}) panicked: {}", t, p), case())?;
     }
@@ -185,7 +192,8 @@ pub fn check_short_strings(ctx: &mut Ctx, alphabet: &str, len: usize, shard: usi
             t.push(a[(x % n) as usize]);
             x /= n;
         }
-        let quiet = matches!(guarded(|| (ChessMove::from_str(&t).is_ok(), Square::from_str(&t).is_ok())), Ok((false, false)));
+        #[allow(deprecated)]
+        let quiet = matches!(guarded(|| (ChessMove::from_str(&t).is_ok(), Square::from_str(&t).is_ok(), Square::from_string(t.clone()).is_some())), Ok((false, false, false)));
         if !quiet {
             parsed += 1;
             check_text(ctx, &t)?;
